@@ -12,7 +12,7 @@ Next ==
                                                  \/ Len(sp.files[<<"main">>]) <= 3) /\ cs' = sp)
     \/ /\ stage = 1 /\ stage' = 2
        /\ \/ cs' = cs
-          \/ \E p \in DOMAIN cs.files \ {<<"main">>} : \E how \in {"syntax", "unresolved", "deleted"} : cs' = Inject(cs, p, how)
+          \/ \E p \in DOMAIN cs.files \ {<<"main">>} : \E how \in InjectHows : cs' = Inject(cs, p, how)
 Spec == Init /\ [][Next]_vars
 
 R == LoadAll(cs.files)
@@ -25,7 +25,7 @@ Transparent == (stage = 2 /\ cs.base # 0 /\ cs.inject = "none") => R.ok /\ Singl
 ErrNamesModule == (stage = 2 /\ cs.inject # "none") =>
                      /\ ~R.ok
                      /\ R.file = cs.where
-                     /\ R.why = IF cs.inject = "deleted" THEN "missing-file" ELSE cs.inject
+                     /\ R.why = IF cs.inject = "deleted" THEN "missing-file" ELSE IF cs.inject \in InvalidHows THEN "invalid" ELSE cs.inject
 
 Paths == SetToSeq(DOMAIN cs.files)
 Emit == stage = 2 =>
